@@ -30,6 +30,8 @@ pub enum Op {
     Threshold(u8),
     Ceiling(u8),
     Mode(bool),
+    /// a loss report (NAK) for a sequence number this link holds, attributed to it: a charge, never delivery proof
+    NakOwned(u16),
 }
 
 #[derive(Debug, Clone, Hash, Serialize, Deserialize)]
@@ -69,6 +71,7 @@ fn op() -> impl Strategy<Value = Op> {
         1 => (0u8..THRESHOLDS.len() as u8).prop_map(Op::Threshold),
         1 => (0u8..CEILINGS.len() as u8).prop_map(Op::Ceiling),
         1 => any::<bool>().prop_map(Op::Mode),
+        3 => any::<u16>().prop_map(Op::NakOwned),
     ]
 }
 
@@ -174,6 +177,14 @@ pub fn check(case: &Case, obs: &mut Obs) -> CheckResult {
                         vensure!(found, "harness", "earned ack not found");
                         mons[i].heard = Some(now);
                         mons[i].proof = now;
+                    }
+                    Op::NakOwned(l) => {
+                        // arrives on some other (healthy) link; the named link only loses the packet and pays for it
+                        let c = &mut links[idx(*l, n)];
+                        c.register_packet(seq, now);
+                        c.handle_nak(seq, now);
+                        seq += 1;
+                        obs.class("nak-for-owned-seq");
                     }
                     Op::ForeignAck(l) => {
                         // SRTLA ACK that arrived on another link but names a seq this link holds
